@@ -3,6 +3,7 @@ package main
 import (
 	"fmt"
 	"go/constant"
+	"go/token"
 	"go/types"
 	"sort"
 	"strings"
@@ -170,16 +171,49 @@ func checkEqualsCoverage(w *World, r *Report) {
 					r.Check(dominatesAllTrue(ifi), "equals.cover", key, pos, "scalar compare → return false, dominating every `return true`", "a `return true` is reachable without the comparison of "+key)
 				}
 			case *types.Pointer:
-				nilAgree := find(func(a Atom) bool {
-					return a.Op == "==" && pair(a, "("+dR+" == nil)", "("+oR+" == nil)") || a.Op == "==" && pair(a, "("+dR+" != nil)", "("+oR+" != nil)")
-				}, false)
-				deref := find(func(a Atom) bool { return a.Op == "==" && pair(a, "*"+dR, "*"+oR) }, false)
-				ok := nilAgree != nil && deref != nil
-				if !ok {
-					r.Viol("equals.cover", key, pos, fmt.Sprintf("%s (pointer): needs nil-ness agreement and pointee comparison, found nil-agreement=%v pointee=%v", key, nilAgree != nil, deref != nil))
-				} else {
-					r.Check(dominatesAllTrue(nilAgree), "equals.cover", key, pos, "nil-ness agreement + pointee compare → return false", "a `return true` is reachable without the nil-ness test of "+key)
+				// decided by evaluation, not by the shape of the comparison: on the five order types of
+				// (nil | value) × (nil | same value | other value) every path consistent with an
+				// unequal pair returns false, and an equal pair has a path that does not return
+				// false because of this field (all other inputs unconstrained)
+				pvars := map[string]string{dR: "dptr", oR: "optr", "*" + dR: "dval", "*" + oR: "oval"}
+				pr := w.EnumPaths(eq, EnumOpts{Inline: true, MaxPaths: 20000})
+				badP := ""
+				for _, val := range []struct {
+					dptr, optr, dval, oval int64
+					equal                  bool
+				}{{0, 0, 0, 0, true}, {0, 1, 0, 7, false}, {1, 0, 7, 0, false}, {1, 1, 7, 7, true}, {1, 1, 7, 9, false}} {
+					env := map[string]int64{"dptr": val.dptr, "optr": val.optr}
+					if val.dptr == 1 {
+						env["dval"] = val.dval
+					}
+					if val.optr == 1 {
+						env["oval"] = val.oval
+					}
+					sel, problem := selectPaths(pr.Paths, pvars, env, true)
+					if problem != "" || len(sel) == 0 || pr.Truncated {
+						badP = "cannot evaluate " + fname + " on the pointer cases: " + problem
+						break
+					}
+					someTrue, allFalse := false, true
+					for _, pe := range sel {
+						if pe.Path.End != "return" || len(pe.Path.Ret) != 1 {
+							continue
+						}
+						if pe.Path.Ret[0] == "true" {
+							someTrue = true
+							allFalse = false
+						} else if pe.Path.Ret[0] != "false" {
+							allFalse = false
+						}
+					}
+					if !val.equal && !allFalse {
+						badP = fmt.Sprintf("for %s = %s and other = %s a path returns true", key, ptrStr(val.dptr, val.dval), ptrStr(val.optr, val.oval))
+					}
+					if val.equal && !someTrue {
+						badP = fmt.Sprintf("for equal %s (%s) no path returns true", key, ptrStr(val.dptr, val.dval))
+					}
 				}
+				r.Check(badP == "", "equals.cover", key, pos, "pointer field: unequal nil-ness or pointee ⇒ false on every consistent path; equal ⇒ not rejected (5 order types)", key+" (pointer) is not compared by nil-ness and pointee: "+badP+" — an edit to this field is ignored by reload (or equal definitions are reported as changed)")
 			case *types.Slice:
 				// helper(d.F, o.F) negated → return false
 				var helper *ssa.Function
@@ -446,6 +480,38 @@ func checkLoaderPipeline(w *World, r *Report) {
 				})
 				okD = allSucc && decCall != nil && stCall != nil && instrDominates(decCall, stCall)
 			}
+			if !okD {
+				// … or the storing function applies the default itself: every path to the store has
+				// tested `<stored cell>.Concurrency == 0` and, on the zero edge, stored 1 into it
+				lp := w.EnumPaths(ld, EnumOpts{MaxPaths: 20000})
+				cell := w.AP(mu.Value)
+				nTo, okAll := 0, !lp.Truncated
+				for _, p := range lp.Paths {
+					at := -1
+					for k, ev := range p.Events {
+						if ev.Eff != nil && ev.Eff.In == ssa.Instruction(mu) {
+							at = k
+						}
+					}
+					if at < 0 {
+						continue
+					}
+					nTo++
+					tested, fixed, zero := false, false, false
+					for _, ev := range p.Events[:at] {
+						if ev.Lit != nil && ev.Lit.Atom.Op == "==" && ev.Lit.Atom.L == cell+".Concurrency" && ev.Lit.Atom.R == "0" {
+							tested, zero = true, ev.Lit.Val
+						}
+						if ev.Eff != nil && ev.Eff.Kind == "store" && ev.Eff.Target == cell+".Concurrency" && ev.Eff.Val == "1" {
+							fixed = true
+						}
+					}
+					if !tested || zero && !fixed {
+						okAll = false
+					}
+				}
+				okD = okAll && nTo > 0
+			}
 			r.Check(okD, "loader.defaults", key, pos, "a call that applies the concurrency default dominates the store", "no defaults call dominates the store: concurrency 0 would be rejected or stored unset")
 			// validate()==nil edge
 			okV := false
@@ -546,9 +612,24 @@ func (w *World) storesField(fn *ssa.Function, typeName, field string) bool {
 }
 
 // sameValueOrCell: a and b are the same SSA value or loads of the same local cell.
+func ptrStr(ptr, val int64) string {
+	if ptr == 0 {
+		return "nil"
+	}
+	return fmt.Sprintf("&%d", val)
+}
+
 func (w *World) sameValueOrCell(a, b ssa.Value) bool {
 	if a == b || w.Resolve(a) == w.Resolve(b) {
 		return true
+	}
+	// the address of a cell (pointer receiver) and a load of that cell
+	for _, pair := range [][2]ssa.Value{{a, b}, {b, a}} {
+		if al, ok := w.resolveAddr(pair[0]).(*ssa.Alloc); ok {
+			if ld, ok := pair[1].(*ssa.UnOp); ok && ld.Op == token.MUL && w.resolveAddr(ld.X) == ssa.Value(al) {
+				return true
+			}
+		}
 	}
 	ua, ok1 := a.(*ssa.UnOp)
 	ub, ok2 := b.(*ssa.UnOp)
@@ -698,23 +779,50 @@ func checkValidationTable(w *World, r *Report) {
 		r.Viol("validate.defaults", "defaults function", "-", "no function applies the concurrency default")
 		return
 	}
+	// on every path that takes the Concurrency == 0 edge: the value 1 is stored into that cell and
+	// the cell is afterwards written into a pipelines map under the ranged key (at once, or where
+	// the loader stores the validated pipeline)
 	okSD := false
-	for _, f := range w.ifFacts(sd) {
-		if f.Atom.Op == "==" && strings.HasSuffix(f.Atom.L, ".Concurrency") && f.Atom.R == "0" {
-			// on the ==0 edge: store Concurrency := 1 and a map update back
-			blk := f.If.Block().Succs[f.SuccTrue]
-			st1, mu := false, false
-			for _, in := range blk.Instrs {
-				if st, ok := in.(*ssa.Store); ok && strings.HasSuffix(w.apAddr(st.Addr), ".Concurrency") && isConstInt(st.Val, 1) {
-					st1 = true
-				}
-				if m, ok := in.(*ssa.MapUpdate); ok && strings.HasSuffix(w.AP(m.Map), ".Pipelines") && strings.HasPrefix(w.AP(m.Key), "rangekey(") {
-					mu = true
-				}
+	sp := w.EnumPaths(sd, EnumOpts{MaxPaths: 20000})
+	nZero := 0
+	okAllZero := !sp.Truncated
+	for _, p := range sp.Paths {
+		zeroAt := -1
+		cell := ""
+		for k, ev := range p.Events {
+			if ev.Lit != nil && ev.Lit.Atom.Op == "==" && strings.HasSuffix(ev.Lit.Atom.L, ".Concurrency") && ev.Lit.Atom.R == "0" && ev.Lit.Val {
+				zeroAt, cell = k, strings.TrimSuffix(ev.Lit.Atom.L, ".Concurrency")
 			}
-			okSD = st1 && mu
+		}
+		if zeroAt < 0 || strings.HasPrefix(p.End, "backedge") && false {
+			continue
+		}
+		st1, mu, failed := false, false, false
+		for _, ev := range p.Events[zeroAt+1:] {
+			if ev.Eff == nil {
+				continue
+			}
+			e := ev.Eff
+			if e.Kind == "store" && e.Target == cell+".Concurrency" && e.Val == "1" {
+				st1 = true
+			}
+			if e.Kind == "mapupdate" && st1 && strings.Contains(e.Target, ".Pipelines[rangekey(") {
+				mu = true
+			}
+		}
+		// a path that ends in an error return stores nothing: not a success path
+		if p.End == "return" && len(p.Ret) > 0 && p.Ret[len(p.Ret)-1] != "nil" {
+			failed = true
+		}
+		if failed || p.End == "panic" {
+			continue
+		}
+		nZero++
+		if !(st1 && mu) {
+			okAllZero = false
 		}
 	}
+	okSD = okAllZero && nZero > 0
 	r.Check(okSD, "validate.defaults", FuncName(sd)+": concurrency 0 → 1", w.Pos(sd.Pos()), "on Concurrency == 0 the value 1 is stored and written back under the same key", "the default is not (exactly) `Concurrency == 0 → 1, written back to the map`")
 }
 
